@@ -177,7 +177,7 @@ fn extract(tokens: &str) -> Result<Extracted, String> {
 
 pub fn run(report: &mut Report, replay: Option<&Value>) {
     report.rule = "exhaustive: all 62 type expressions of list depth 0-4 (every placement of `!`) x named kinds {Int, Float, String, Boolean, ID, custom scalar, enum, object, interface, union; input object} x positions {response field, variable, input-object field, @oneOf member} x schema formats {SDL, introspection JSON}. Oracle: an independently written mapping (`!` removes one Option, a list becomes Vec, per level; @oneOf variants carry the value without the outer Option); the field's syn::Type, whitespace-normalised, must equal it (composite response types: the innermost, path-derived name is a wildcard that must be defined in the module); the module's aliases must be Boolean = bool, Float = f64, Int = i64, ID = String. Non-trivial: list depth >= 2; distinct by (kind, expression, position, format).".into();
-    report.assumptions = vec!["syn parses the emitted tokens faithfully".into(), "@oneOf members are not checked for the JSON format while introspection JSON loses @oneOf (listed finding of C07)".into()];
+    report.assumptions = vec!["syn parses the emitted tokens faithfully".into(), "the JSON rendering carries `isOneOf` (the answer to the one-of introspection query)".into()];
     let _ = replay;
     let mut exprs: Vec<Vec<bool>> = Vec::new();
     for d in 0..=4usize {
@@ -267,11 +267,7 @@ pub fn run(report: &mut Report, replay: Option<&Value>) {
                 check(report, "variable", i, ex.fields.get(&("Variables".to_string(), format!("v{}", i))), false, false);
                 check(report, "input_field", i, ex.fields.get(&("Holder".to_string(), format!("m{}", i))), false, false);
                 if !exprs[i][0] {
-                    if *fmt == "sdl" {
-                        check(report, "one_of_member", i, ex.variants.get(&("OneHolder".to_string(), format!("O{}", i))), true, false);
-                    } else {
-                        report.count_extra("excluded_one_of_members_json", 1);
-                    }
+                    check(report, "one_of_member", i, ex.variants.get(&("OneHolder".to_string(), format!("O{}", i))), true, false);
                 }
             }
         }
